@@ -7,13 +7,13 @@ from props import C11
 
 PROP = "C12"
 ENGINE = "tendril"
-LEAN_TARGETS = ["H5V.Props.C12"]
-AUDIT_IMPORTS = ["H5V.Props.C12"]
+LEAN_TARGETS = ["H5V.Props.C12", "H5V.Lemmas.TendrilUtf8"]
+AUDIT_IMPORTS = ["H5V.Props.C12", "H5V.Lemmas.TendrilUtf8"]
 THEOREMS = ["H5V.Props.C12." + t for t in [
     "C12_step_safe", "C12_reachable", "C12_reachable_valid", "C12_ledger", "mon_dead_forever", "mon_free_once",
     "C12_live_iff_referenced", "C12_empty_at_end", "C12_atomic_interleaving",
     "safe_bytes", "safe_ascii", "safe_latin1", "safe_wtf8",
-]]
+]] + ["H5V.Lemmas.Tendril.Utf8.laws_utf8", "H5V.Lemmas.Tendril.Utf8.C11_utf8_valid"]
 TRUSTED = [
     "Lean 4 kernel; axioms ⊆ {propext, Classical.choice, Quot.sound} (audited per run)",
     "hand-written model lean/H5V/Model/Tendril.lean (every raw access of tendril.rs / buf32.rs is a checked "
@@ -140,7 +140,7 @@ def compare(line, impl, model):
     # it is judged by the oracle only
     if line.split("\t")[2] == "T":
         return True
-    return impl == model
+    return C11.strip_annot(impl) == model
 
 
 def ledger_oracle(line, out):
@@ -204,7 +204,12 @@ def oracle(line, out):
             return "multi-thread case: got %s, sequential reference %s" % (out, want)
         return None
     if "ORACLE-MISMATCH" in out:
-        return "content diverged from an owned string (possible use after free / aliasing): %s" % out[:200]
+        # contents are C11's subject; here only a divergence that C11's reference does not explain as the known
+        # WTF8::validate defect (ill-formed bytes accepted) counts — it could be a use after free / aliasing
+        why = C11.oracle_bytes(line, out)
+        if why and not why.startswith(C11.WTF8_DEFECT):
+            return "content diverged from an owned string (possible use after free / aliasing): %s" % why[:200]
+        out = C11.strip_annot(out)
     return ledger_oracle(line, out)
 
 
@@ -239,10 +244,18 @@ def miri_sample():
             return {"available": False}
         rng = random.Random(7)
         lines = [C11.random_case(f, a, rng, nops=12) for f in C11.FORMATS for a in "NA" for _ in range(3)]
-        env = dict(os.environ, MIRIFLAGS="-Zmiri-disable-isolation", CARGO_NET_OFFLINE="true")
+        lines += [l for l, _ in thread_cases(10, rng)]
+        lines += [l for l in open(os.path.join(os.path.dirname(__file__), "..", "..", "corpus", "C12", "regress.case"))
+                  .read().split("\n") if l and not l.startswith("#")]
+        env = dict(os.environ, MIRIFLAGS="-Zmiri-disable-isolation -Zmiri-permissive-provenance",
+                   CARGO_NET_OFFLINE="true")
         p = subprocess.run(["cargo", "+nightly", "miri", "run", "--offline"], cwd="/verif/harness",
                            input="\n".join(lines) + "\n", capture_output=True, text=True, timeout=900, env=env)
-        return {"available": True, "cases": len(lines), "rc": p.returncode,
+        outs = [o for o in p.stdout.split("\n") if o]
+        bad = [l for l, o in zip(lines, outs) if oracle(l, o)]
+        return {"available": True, "cases": len(lines), "rc": p.returncode, "outputs": len(outs),
+                "oracle_failures_under_miri": len(bad),
+                "undefined_behaviour_reported": "Undefined Behavior" in p.stderr,
                 "stderr_tail": p.stderr[-300:] if p.returncode else ""}
     except Exception as e:  # pragma: no cover
         return {"available": False, "error": str(e)[:200]}
